@@ -232,6 +232,11 @@ func execC11(c C11Case) *Failure {
 				if block < 1 {
 					block = 1
 				}
+				// the reserve is the one the objects declare: where every ingress that uses the service states the same
+				// slots-min-free (and the Service itself states none), that is the value of the backend
+				if want, ok := declaredMinFree(s.World, name); ok && mb.Dynamic.MinFreeSlots != want {
+					return failf("C11:min-free-differs", "backend %s reserves slots-min-free %d, every ingress that uses the service declares %d", name, mb.Dynamic.MinFreeSlots, want)
+				}
 				if free < mb.Dynamic.MinFreeSlots {
 					return failf("C11:too-few-free-slots", "after the reload of batch %d backend %s has %d empty slots, slots-min-free is %d", batch, name, free, mb.Dynamic.MinFreeSlots)
 				}
@@ -265,4 +270,36 @@ func init() { registerReplay("C11", execC11) }
 
 func TestC11(t *testing.T) {
 	runProperty(t, "C11", genC11, execC11)
+}
+
+
+// declaredMinFree: the slots-min-free of a backend (named ns_service_port) when the declarations leave no doubt: all the
+// ingresses of the namespace that reference the service carry the same valid value (Services carry no annotations here).
+func declaredMinFree(w *world.World, backend string) (int, bool) {
+	val, n := "", 0
+	for _, o := range w.OfKind(world.KIngress) {
+		uses := func(p *world.Path) bool {
+			return p != nil && p.Svc != "" && strings.HasPrefix(backend, o.NS+"_"+p.Svc+"_")
+		}
+		used := uses(o.DefBack)
+		for _, r := range o.Rules {
+			for i := range r.Paths {
+				used = used || uses(&r.Paths[i])
+			}
+		}
+		if !used {
+			continue
+		}
+		v := o.Ann["slots-min-free"]
+		if v == "" || (n > 0 && v != val) {
+			return 0, false
+		}
+		val = v
+		n++
+	}
+	if n == 0 {
+		return 0, false
+	}
+	i, err := strconv.Atoi(val)
+	return i, err == nil && i >= 0
 }
